@@ -1089,3 +1089,22 @@ Proof.
   - assert (B : (LIMIT <? q_blen q)%N = false) by (apply N.ltb_ge; exact H). rewrite B, andb_false_r. reflexivity.
   - rewrite H. reflexivity.
 Qed.
+
+(* ---------- the nesting order of [chain_p] is the order of httpserver's directive list ---------- *)
+Require V.Gen_C09.
+Local Open Scope string_scope.
+Definition chain_order : list bytes :=
+  [bs "limits"; bs "request_id"; bs "log"; bs "rewrite"; bs "gzip"; bs "header"; bs "errors"; bs "redir";
+   bs "status"; bs "mime"; bs "internal"; bs "templates"].
+Fixpoint pos_in (l : list bytes) (k : bytes) (n : nat) : option nat :=
+  match l with [] => None | x :: r => if beq x k then Some n else pos_in r k (S n) end.
+Fixpoint strictly_increasing (l : list (option nat)) : bool :=
+  match l with
+  | Some a :: ((Some b :: _) as r) => Nat.ltb a b && strictly_increasing r
+  | [Some _] => true
+  | [] => true
+  | _ => false
+  end.
+Lemma nesting_is_directive_order :
+  strictly_increasing (map (fun k => pos_in V.Gen_C09.gen_directives k 0) chain_order) = true.
+Proof. vm_compute. reflexivity. Qed.
